@@ -26,7 +26,8 @@ PROP_RULE = ("a case is one Datalog program (dictionary, certain input facts, un
              "from {0, 1, k/8}, positive rules with 1-3 premises, recursion included) run by the real Reasoner under "
              "DNF, SDD, min-max and Boolean provenance, each on a fresh store; exhaustive scope: every graph on 3 nodes "
              "with at most 3 (quick) / 4 (thorough) of the 6 directed edges, each present edge certain, p=1/2, p=1/4 or "
-             "p=0, under transitive closure into a second predicate and under symmetric+transitive closure in place; "
+             "p=0, under transitive closure into a second predicate and under symmetric+transitive closure in place (thorough: "
+             "both programs on every graph; quick: the two programs alternate over the graphs); "
              "random scope: transitive closure (linear, non-linear), mutual recursion, in-place symmetric/transitive "
              "closure, diamond and 3-premise rules, and random safe rules with constants, repeated variables, variable "
              "predicates and two conclusions, over 3-6 nodes with up to 8 (quick) / 12 (thorough) uncertain inputs; negation "
@@ -485,14 +486,21 @@ def exhaustive_cases(thorough):
     statuses = [("c", None), ("u", (1, 2)), ("u", (1, 4)), ("u", (0, 1))]
     maxe = 4 if thorough else 3
     out = []
+    ngraph = 0
     for ne in range(0, maxe + 1):
         for sub in itertools.combinations(edges, ne):
             for st in itertools.product(statuses, repeat=ne):
                 facts = [[a, P0, b] for (a, b), s in zip(sub, st) if s[0] == "c"]
                 seeds = [[a, P0, b, s[1][0], s[1][1]] for (a, b), s in zip(sub, st) if s[0] == "u"]
-                out.append({"dict": DICT, "facts": facts, "seeds": seeds, "rules": tc_rules(P0, P1, "right"), "family": "ex-tc"})
-                out.append({"dict": DICT, "facts": facts, "seeds": seeds, "rules": sym_trans_rules(P0), "family": "ex-symtrans"})
-    return out, "every graph on 3 nodes with <= %d of the 6 directed edges, each present edge certain / p=1/2 / p=1/4 / p=0, x {transitive closure into a second predicate, symmetric+transitive closure in place}" % maxe
+                tc = {"dict": DICT, "facts": facts, "seeds": seeds, "rules": tc_rules(P0, P1, "right"), "family": "ex-tc"}
+                sy = {"dict": DICT, "facts": facts, "seeds": seeds, "rules": sym_trans_rules(P0), "family": "ex-symtrans"}
+                if thorough:
+                    out += [tc, sy]
+                else:           # quick tier: every graph once, the two programs alternating
+                    out.append(tc if ngraph % 2 == 0 else sy)
+                ngraph += 1
+    return out, ("every graph on 3 nodes with <= %d of the 6 directed edges, each present edge certain / p=1/2 / p=1/4 / p=0, %s "
+                 "{transitive closure into a second predicate, symmetric+transitive closure in place}" % (maxe, "x" if thorough else "alternating between"))
 
 
 def random_formula(rng, nv, neg):
@@ -849,7 +857,7 @@ def run(ctx):
     ctx.coverage["exhaustive"] = True
     ctx.coverage["exhaustive_scope"] = scope
     # random programs
-    n = 3000 if ctx.thorough else 320
+    n = 3000 if ctx.thorough else 256
     maxunc = 12 if ctx.thorough else 8
     # a quarter small (dense in the interesting shapes), a quarter pushed towards the largest number of uncertain inputs
     rnd = [gen_case(ctx.rng, min(maxunc, 5)) if i % 4 == 0 else
@@ -858,7 +866,7 @@ def run(ctx):
     ctx.sample(rnd[0])
     evaluate_programs(ctx, binpath, rnd, "random", coq_spec_sample=100 if ctx.thorough else 16)
     # programs with a negative stratum (exact modes against the Spec; min-max / Boolean against the model only)
-    nn_ = 1200 if ctx.thorough else 120
+    nn_ = 1200 if ctx.thorough else 96
     naf = [gen_naf_case(ctx.rng, min(maxunc, 10)) for _ in range(nn_)]
     ctx.sample(naf[0])
     evaluate_programs(ctx, binpath, naf, "negation", coq_spec_sample=60 if ctx.thorough else 12)
